@@ -186,7 +186,9 @@ pub fn full_lists() -> Lists {
         blowup: vec![2, 4, 8, 16],
         folding: vec![2, 4, 8, 16],
         rem: vec![0, 1, 3, 7, 15, 31],
-        n: vec![8, 16, 32, 64, 128, 256, 512, 1024],
+        // 2 and 4 lie below the design's list {8..1024}; they are within the property's quantifier
+        // (bound + 1 a power of two) and cost a handful of points, so deviation 1 includes them
+        n: vec![2, 4, 8, 16, 32, 64, 128, 256, 512, 1024],
     }
 }
 
@@ -208,6 +210,8 @@ pub fn bases() -> Vec<Cfg> {
         Cfg { field: F64, ext: 1, hasher: BLAKE3, blowup: 4, folding: 2, rem: 1, n: 16 },
         // 64-point domain, two layers of folding 4, 2 remainder coefficients, quadratic extension
         Cfg { field: F128, ext: 2, hasher: BLAKE3, blowup: 2, folding: 4, rem: 1, n: 32 },
+        // 64-point domain, two layers, 8 remainder coefficients over a 16-point last layer
+        Cfg { field: F64, ext: 2, hasher: BLAKE3, blowup: 2, folding: 2, rem: 7, n: 32 },
     ]
 }
 
@@ -267,10 +271,15 @@ pub fn run(args: &Args) {
             small.clone()
         };
         for poly in alphabet(cfg.n) {
-            let wants_all = match level {
-                0 => true,
-                1 => poly == Poly::Counter(cfg.n) || poly == Poly::Mono(cfg.n - 1),
-                2 => poly == Poly::Counter(cfg.n) && (thorough || sh.domain <= 32),
+            let dense = poly == Poly::Counter(cfg.n);
+            let top = poly == Poly::Mono(cfg.n - 1) || poly == Poly::AllMax(cfg.n);
+            let wants_all = match (level, thorough) {
+                (0, _) => true,
+                (1, false) => dense || poly == Poly::Mono(cfg.n - 1),
+                (1, true) => true,
+                (2, false) => dense && sh.domain <= 32,
+                (2, true) => dense || top,
+                (3, true) => dense,
                 _ => false,
             };
             let positions = if wants_all { all.clone() } else { small.clone() };
@@ -281,7 +290,10 @@ pub fn run(args: &Args) {
         }
     }
 
-    let results = mck::par_map(units.len(), |i| dispatch_unit(&units[i]));
+    // a panic that escapes the per-call guards is a harness failure, never a verdict
+    let results = mck::par_map(units.len(), |i| {
+        mck::catch(|| dispatch_unit(&units[i])).unwrap_or_else(|p| mck::report::machinery(&format!("harness panicked at {} ({}) in unit {}/{}", p.location, p.message, units[i].cfg.key(), units[i].poly.key())))
+    });
 
     // ---- merge -----------------------------------------------------------------------------
     let mut per_field: BTreeMap<String, (Sweep, Stats, BTreeSet<Cfg>)> = BTreeMap::new();
@@ -329,7 +341,8 @@ pub fn run(args: &Args) {
         "deviation_2_lists": if thorough { full.to_json() } else { reduced.to_json() },
         "deviation_3_lists": if thorough { reduced.to_json() } else { Value::Null },
         "polynomials": "zero, one, x^k (all k <= bound when bound < 64; k in {1,2,n/2-1,n/2,n/2+1,n-3,n-2,n-1} otherwise), all coefficients p-1, counter 1,2,3.. of n, (n-1)/2+1 and n-1 coefficients",
-        "positions": "domain <= 64: every single position and every unordered pair incl. duplicates (base points: for every polynomial; deviation 1: for the dense counter polynomial and x^bound; deviation 2: dense counter, quick tier only on domains <= 32) plus the small family; every point and polynomial: small family = first, last, middle, pair colliding after one folding (two instances), pair colliding after two foldings, duplicate, unsorted, a whole coset, a 5-element unsorted multiset with a duplicate, min(255, domain-1) positions drawn by DefaultProverChannel::draw_query_positions",
+        "positions": if thorough { "domain <= 64: every single position and every unordered pair incl. duplicates (deviation 0 and 1: for every polynomial; deviation 2: dense counter, x^bound, all p-1; deviation 3: dense counter) plus the small family;" } else { "domain <= 64: every single position and every unordered pair incl. duplicates (base points: for every polynomial; deviation 1: dense counter and x^bound; deviation 2: dense counter on domains <= 32) plus the small family;" },
+        "positions_small_family": " every point and polynomial: small family = first, last, middle, pair colliding after one folding (two instances), pair colliding after two foldings, duplicate, unsorted, a whole coset, a 5-element unsorted multiset with a duplicate, min(255, domain-1) positions drawn by DefaultProverChannel::draw_query_positions",
     });
     report.rule = "one case per (configuration, polynomial, position multiset); all cases are distinct by construction (set-deduplicated lattice points, duplicate-free alphabets and position lists); non-trivial = the proof has at least one FRI layer and the polynomial is not zero".into();
     report.assumptions = vec![
